@@ -243,6 +243,34 @@ def _eq_paths(cfg, cx, ts):
     types = [kp for kp, _ in ts]
     rows = []
     typewise = True
+
+    def run_script(order_b, script):
+        a_blocks = {kp: jnp.full((c,) + (N,) * D + (D,) * kp[0], float(i + 1)) for i, (kp, c) in enumerate(ts)}
+        b_blocks = {kp: jnp.full((c,) + (N,) * D + (D,) * kp[0], float(i + 1)) for i, (kp, c) in enumerate(ts)}
+        a = geom.MultiImage(a_blocks, D, True)
+        b = geom.MultiImage({types[i]: b_blocks[types[i]] for i in order_b}, D, True)
+        ida = {id(v): kp for kp, v in a.data.items()}
+        idb = {id(v): kp for kp, v in b.data.items()}
+
+        def fake(x, y, *args, **kw):
+            tx, ty = ida.get(id(x)), idb.get(id(y))
+            if tx is None or ty is None or tx != ty:
+                return jnp.asarray(False)
+            return jnp.asarray(script[types.index(tx)])
+        real = mi_mod.jnp.allclose
+        mi_mod.jnp.allclose = fake
+        try:
+            return bool(a == b)
+        finally:
+            mi_mod.jnp.allclose = real
+
+    def replay_table(vals, bvals):
+        script = tuple(bool(bvals.get(f"close{i}", False)) for i in range(n))
+        for order_b in itertools.permutations(range(n)):
+            got = run_script(order_b, script)
+            if got != all(script):
+                return True, f"a == b returned {got} with type-wise allclose answers {dict(zip(types, script))} (second operand order {order_b})"
+        return False, "the real __eq__ agrees with the specification under this script"
     for order_b in itertools.permutations(range(n)):
         for script in itertools.product([True, False], repeat=n):
             a_blocks = {kp: jnp.full((c,) + (N,) * D + (D,) * kp[0], float(i + 1)) for i, (kp, c) in enumerate(ts)}
@@ -279,7 +307,7 @@ def _eq_paths(cfg, cx, ts):
     spec = S.band(*close)
     goal = S.bor(S.band(table, spec), S.band(S.bnot(table), S.bnot(spec)))
     cx.holds(f"eq truth table == conjunction of type-wise closeness [ts={cfg['ts']}]", goal, key=f"eq:table:ts={cfg['ts']}",
-             replay=lambda vals, bvals: (True, f"__eq__ disagrees with the specification under allclose answers {bvals}"))
+             replay=replay_table)
     cx.holds("canary[eq == disjunction]", S.bor(S.band(table, S.bor(*close)), S.band(S.bnot(table), S.bnot(S.bor(*close)))), canary=True) if n > 1 else None
     # different key sets / D / flags are unequal; non-MultiImage is unequal
     a = geom.MultiImage({kp: jnp.ones((c,) + (N,) * D + (D,) * kp[0]) for kp, c in ts}, D, True)
